@@ -103,7 +103,9 @@ Do(o, body, end) ==
                [] o = "stream"    -> /\ cur' = [body |-> body, end |-> end] /\ pc' = "read" /\ UNCHANGED <<curErr, result>>
     /\ UNCHANGED <<cfg, lastEventID, isRetry, interval, numRetries, everConnected, reqs, events, waits>>
 
-Digits(t) == CASE t = "d1" -> <<1>> [] t = "d07" -> <<0, 7>> [] t = "d0" -> <<0>> [] OTHER -> <<>>
+Digits(t) == CASE t = "d1" -> <<1>> [] t = "d07" -> <<0, 7>> [] t = "d0" -> <<0>> [] t = "d2" -> <<2>> [] t = "d3" -> <<3>>
+              [] t = "d4" -> <<4>> [] t = "d5" -> <<5>> [] t = "d6" -> <<6>> [] t = "d7" -> <<7>> [] t = "d8" -> <<8>> [] t = "d9" -> <<9>>
+              [] OTHER -> <<>>
 RECURSIVE DigitSeq(_)
 DigitSeq(v) == IF v = <<>> THEN <<>> ELSE Digits(Head(v)) \o DigitSeq(Tail(v))
 RECURSIVE Num(_)
